@@ -182,7 +182,10 @@ def check_tree(ctx, case):
         if ids_sig(croot) != full_sig:
             return ctx.fail(("clone_from_root-tree-differs",), case, det)
         if A.follow(croot, path) is not c:
-            det["returned_path"] = A.path_of(c)
+            try:
+                det["returned_path"] = A.path_of(c)
+            except RuntimeError:
+                det["returned_path"] = "(the returned node is not reachable from the root it points to)"
             return ctx.fail(("clone_from_root-wrong-node",), case, det)
         if c.id != n.id or A.kind(c) != A.kind(n):
             return ctx.fail(("clone_from_root-wrong-id",), case, det)
@@ -230,7 +233,11 @@ def check_results_of_rewrites(ctx, case):
                     c = pick.clone_from_root()
                 except Exception as e:
                     return ctx.fail(("clone_from_root-raised",) + E.exc_site(e)[:1], case, {"after": f"{name} at {E.text_of(n)}", "error": repr(e)[:200]})
-                if c is None or not hasattr(c, "parent") or c.id != pick.id or A.path_of(c) != A.path_of(pick):
+                try:
+                    same_place = c is not None and hasattr(c, "parent") and c.id == pick.id and A.path_of(c) == A.path_of(pick) and A.follow(E._root(c), A.path_of(pick)) is c
+                except RuntimeError:
+                    same_place = False
+                if not same_place:
                     return ctx.fail(("clone_from_root-wrong-node",), case, {"after": f"{name} at {E.text_of(n)}", "node": E.text_of(pick)})
 
 
